@@ -325,7 +325,7 @@ def run_shard(shard, tier, seed, rec):
     elif shard["kind"] == "attrs":
         run_attrs(shard["driver"], rec)
     else:
-        n = {"quick": 25, "thorough": 1200}[tier]
+        n = {"quick": 30, "thorough": 1200}[tier]
         drivers = [["h5"], ["ih5"]][shard["i"] % 2]
         strat = C.chistories(8, 25 if tier == "quick" else 50).map(lambda h: dict(history=h, drivers=drivers))
         hyp.search(strat, lambda c: run_case(c, rec), rec, seed=seed * 1000 + shard["i"], max_examples=n,
